@@ -47,7 +47,9 @@ where
             func,
             call_count,
             current_index: 0,
-            done: false,
+            // If no replies are expected (e.g. a chain of only oneway calls), there is nothing to
+            // wait for.
+            done: call_count == 0,
             _phantom: core::marker::PhantomData,
         }
     }
